@@ -6,7 +6,7 @@
    Keys carry their xxhash value. [nat_less] is natsort.Compare. *)
 From Coq Require Import NArith ZArith List Bool Permutation String Lia.
 Import ListNotations.
-From Verif Require Import Lib.Corr Lib.Misc_Cmp Gen.C49 Model.C49 Proofs.C49 Proofs.C49_ieee.
+From Verif Require Import Lib.Corr Lib.Misc_Cmp Gen.C49 Model.C49 Proofs.C49 Proofs.C49_ieee Proofs.C49_prim.
 Open Scope Z_scope.
 
 (* The hypothesis on [nextj] is only needed where the code evaluates the
@@ -100,6 +100,20 @@ Print Assumptions C49_add_last_pred.
 Theorem C49_float_expression : nextj_ok nextj_ieee (2 ^ 53 - 1).
 Proof. exact nextj_ieee_dom. Qed.
 Print Assumptions C49_float_expression.
+
+(* The executable evaluation of the expression with Coq's primitive floats, with
+   which the check re-computes every oracle value taken from the Go run, IS the
+   IEEE-754 reading; so it satisfies the hypothesis too. Depends on the
+   specification axioms of Coq's primitive integers/floats and on the classical
+   reals (Flocq). *)
+Theorem C49_prim_is_ieee : forall b key,
+  0 <= b < 2 ^ 53 - 1 -> 0 <= key < two64 -> nextj_prim b key = nextj_ieee b key.
+Proof. exact nextj_prim_ieee. Qed.
+Print Assumptions C49_prim_is_ieee.
+
+Theorem C49_float_expression_prim : nextj_ok nextj_prim (2 ^ 53 - 1).
+Proof. intros b k Hb Hk. rewrite nextj_prim_ieee by assumption. apply nextj_ieee_dom; assumption. Qed.
+Print Assumptions C49_float_expression_prim.
 
 (* Instances with no hypothesis left: termination and range, consistency, and
    add-last for up to 2^53 - 2 buckets / servers. *)
